@@ -124,7 +124,7 @@ var $newType = (size, kind, string, named, pkg, exported, constructor) => {
                 this.$imag = $fround(imag);
                 this.$val = this;
             };
-            typ.keyFor = x => { return x.$real + "$" + x.$imag; };
+            typ.keyFor = x => { return $floatKey(x.$real) + "$" + $floatKey(x.$imag); };
             break;
 
         case $kindComplex128:
@@ -133,7 +133,7 @@ var $newType = (size, kind, string, named, pkg, exported, constructor) => {
                 this.$imag = imag;
                 this.$val = this;
             };
-            typ.keyFor = x => { return x.$real + "$" + x.$imag; };
+            typ.keyFor = x => { return $floatKey(x.$real) + "$" + $floatKey(x.$imag); };
             break;
 
         case $kindArray:
@@ -146,9 +146,10 @@ var $newType = (size, kind, string, named, pkg, exported, constructor) => {
                 // The element type may be initialized after this type: ask it on demand.
                 Object.defineProperty(typ, "comparable", { get: () => elem.comparable });
                 typ.keyFor = x => {
-                    return Array.prototype.join.call($mapArray(x, e => {
+                    // The keys are collected in a plain Array: x may be a typed array, which cannot hold strings.
+                    return Array.prototype.map.call(x, e => {
                         return String(elem.keyFor(e)).replace(/\\/g, "\\\\").replace(/\$/g, "\\$");
-                    }), "$");
+                    }).join("$");
                 };
                 typ.copy = (dst, src) => {
                     if (src.length === undefined) {
